@@ -19,6 +19,9 @@ REQUIRED_THEOREMS = [
     "TapkeeVerif.Knn.vptree_build_inv",
     "TapkeeVerif.Knn.vptree_search_exact",
     "TapkeeVerif.Knn.three_methods_agree",
+    "TapkeeVerif.Knn.CoverQuery.cover_query_exact",
+    "TapkeeVerif.Knn.CoverQuery.cover_tree_exact",
+    "TapkeeVerif.Knn.CoverQuery.cover_copy_bound_refuted",
 ]
 METHODS = ["brute", "vptree", "covertree"]
 
@@ -393,7 +396,9 @@ def correspond(ctx):
         "std::nth_element, std::partial_sort and std::priority_queue are modelled by their postconditions (theorems hold for "
         "any admissible outcome); the executable model instance uses a stable sort / first-maximum pop and is compared at the "
         "level of sorted distance lists (brute, VP-tree) resp. entry by entry (cover wrapper: std::pair's operator< is total)",
-        "cover tree: the batch query (descend/brute_nearest) and batch_create are not modelled; the query's result is "
-        "certificate-checked on every run (CandsOk, the hypothesis of cover_wrapper_exact, and equality with "
-        "{j | d(i,j) <= (k+1)-th distance}) and the model of the wrapper runs on the real candidate sets",
+        "cover tree: batch_create is not modelled — the tree it builds is dumped and certificate-checked on every run "
+        "(wfTree, the hypothesis of cover_query_exact) and the Lean model of the batch query is run on it (candidate "
+        "sets must equal the real query's; halfsort = identity in the model); additionally CandsOk and equality with "
+        "{j | d(i,j) <= (k+1)-th distance} are evaluated on the real candidate sets; the model of the wrapper runs "
+        "on the real candidate sets",
     ]
